@@ -348,9 +348,7 @@ func C14(op Opts) *Out {
 		if !c14Compare(o, in, im, rm, false, false) {
 			continue
 		}
-		if o.Evaluations%50 == 1 {
-			o.Sample(in + " -> " + refSer(rm, false))
-		}
+		o.Sample(in + " -> " + refSer(rm, false))
 		walk(in, im, rm, nil, depth)
 	}
 	// invalid seed lengths
